@@ -50,6 +50,7 @@ def run(repo, rep, tier):
     _decode(repo, rep)
     _loop(repo, rep)
     _dollar(repo, rep)
+    L.state_rule(repo, rep)
 
 
 def _leaves(v, conds=()):
@@ -307,6 +308,33 @@ def _decode(repo, rep):
     rep.check(ok, "R06.3", f.qualname, "markup interpolation decodes "
               "character entities in expressions", construct="decode-flag",
               where=L.where(f))
+    # ... ONCE: only the markup contexts ask for it.  The interpolators that
+    # the string: / structure: expressions build for their own text rely on
+    # the constructor's default, which therefore has to be 'off' (their
+    # text was decoded with the expression it is part of)
+    ii = repo.func(COMP + "Interpolator.__init__")
+    names_ = [a_.arg for a_ in ii.node.args.args]
+    dflt_ = None
+    if "decode_htmlentities" in names_:
+        k_ = names_.index("decode_htmlentities") - (
+            len(names_) - len(ii.node.args.defaults))
+        if 0 <= k_ < len(ii.node.args.defaults):
+            dflt_ = ii.node.args.defaults[k_]
+    implicit = []
+    for q_, fn_ in sorted(repo.funcs.items()):
+        for c_ in ast.walk(fn_.node):
+            if isinstance(c_, ast.Call) and src(c_.func) == "Interpolator" \
+                    and not any(k.arg == "decode_htmlentities"
+                                for k in c_.keywords) and len(c_.args) < 4:
+                implicit.append(fn_.qualname)
+    rep.check(isinstance(dflt_, ast.Constant) and dflt_.value is False and
+              len(implicit) >= 1, "R06.3", ii.qualname, "an interpolator "
+              "built without saying so does not decode entities (%d such "
+              "construction(s): the nested ${...} of string: expressions)"
+              % len(implicit), construct="decode-default-off",
+              where=L.where(ii),
+              detail="default %s" % (src(dflt_) if dflt_ is not None
+                                     else None))
     if calls:
         rep.check(src(calls[0].args[0]) == "expr.value" and
                   src(calls[0].args[1]) == "node.braces_required", "R06.3",
